@@ -15,7 +15,10 @@ METHODS = ['new_change', 'new_file', 'write_preamble', 'write_meta',
 def build(tag):
     eng = verify.Engine()
     kind, val = tag.split(':', 1)
-    if kind == 'prep':
+    if kind == 'tf':
+        from contracts import text_funcs as TF
+        getattr(TF, 'register_' + val)(eng)
+    elif kind == 'prep':
         W.register(eng, val, own_prepare=True)
     else:
         W.register(eng, val if val != '-' else None)
@@ -53,6 +56,8 @@ def main():
             jobs.append((W.QN + m, 'w:' + prev))
     for prev in ('diffx', '.change', '..file'):
         jobs.append((W.QN + '_prepare_content', 'prep:' + prev))
+    from contracts import text_funcs as TF
+    jobs += [(TF.T_STRIP, 'tf:strip'), (TF.T_GUESS, 'tf:guess')]
     chk.verify_parallel(build, jobs, timeout_s=30, procs=14)
     chk.trusted += [
         'RenderHeader (contracts/writer.py) is the specification-side '
